@@ -452,18 +452,19 @@ func TestVerifTrieStoreInMemory(t *testing.T) {
 				}
 				table = database.NewTable(pdb, "storage")
 				persisted = nil
+				resyncPanic := vTry(func() {
 				ct := NewTrie(nil, table)
 				if s.Obs.V1 {
 					ct.SetVersion(trie.V1)
 				}
 				for _, key := range vSortedKeys(comm) {
 					if err := ct.Put([]byte(key), comm[key]); err != nil {
-						t.Fatalf("VERIF-INFRA resync put: %v", err)
+						panic(fmt.Sprintf("resync put: %v", err))
 					}
 				}
 				lastRoot = ct.MustHash()
 				if err := ct.WriteDirty(table); err != nil {
-					t.Fatalf("VERIF-INFRA resync write: %v", err)
+					panic(fmt.Sprintf("resync write: %v", err))
 				}
 				tr = ct.Snapshot()
 				for key := range comm {
@@ -475,6 +476,13 @@ func TestVerifTrieStoreInMemory(t *testing.T) {
 					if cv, ok := comm[key]; !ok || !bytes.Equal(cv, work[key]) {
 						_ = tr.Put([]byte(key), work[key])
 					}
+				}
+				})
+				if resyncPanic != "" {
+					// the real code cannot even rebuild the specification's state: the disagreement
+					// that led here is already recorded; the rest of this behaviour is abandoned
+					res.Fail(b.ID, si, o.Op, "panic", "state rebuilt", resyncPanic, "C04/resync/panic", nil)
+					break
 				}
 			}
 		}
